@@ -5,18 +5,24 @@ from fractions import Fraction
 LEVEL = 'proof'
 CLAIM = ("floor ceil trunc round roundEven fract abs sign isnan isinf, the four bit casts, min max clamp (2/3/4-argument, scalar/vector/broadcast overloads) step smoothstep mix (float and bool "
          "interpolator) mod modf frexp ldexp, fmin fmax fclamp (2/3/4-argument), the texture-coordinate wrappers clamp/repeat/mirrorClamp/mirrorRepeat, iround/uround, gtx/common isdenormal fmod "
-         "openBounded closeBounded and the gtx/compatibility twins lerp saturate isfinite atan2 are executed symbolically from their clang IR with one fully symbolic float (and double) per argument; "
+         "openBounded closeBounded, the gtx/compatibility twins lerp saturate isfinite atan2 and gtc/epsilon epsilonEqual epsilonNotEqual are executed symbolically from their clang IR with one fully symbolic float (and double) per argument; "
          "the solver shows that every result is the value prescribed by the GLSL / header definition written directly in SMT-LIB floating-point operations (fp.roundToIntegral in the five modes, "
          "comparisons, selections, integer arithmetic on bit patterns). For functions that are a bare library call the obligation is the routing/lifting one (right function, right argument order, "
-         "applied to every component). Every constant of ext/scalar_constants and gtc/constants: the literal returned by the compiled function lies strictly between the midpoints to its two "
+         "applied to every component). The formula obligations of mix/lerp/mod/smoothstep (compiled code = IEEE evaluation of the documented formula) are decided syntactically: both sides are "
+         "brought to one operand order of the commutative fp.add/fp.mul (commutativity re-proved as c11.lemma.commute-*) and compared as terms; only if they differ is the solver asked. "
+         "Hard sub-circuits (the division and the Hermite polynomial of smoothstep, |x| and x-floor(x) and the parity term of mirrorRepeat) are cut: a lemma about the executed sub-term is proved for every "
+         "value of a fresh variable (cvc5 or z3) and the sub-term is replaced by a fresh float constrained only by the proved facts. Every constant of ext/scalar_constants and gtc/constants: the literal returned by the compiled function lies strictly between the midpoints to its two "
          "neighbouring floats/doubles around a rigorous mpmath interval enclosure of the named quantity (rational arithmetic in the solver).")
-BOUNDS = ('all 2^32 float / 2^64 double patterns per argument (n symbolic arguments for n-ary functions), vector lengths 1-4 (quick: 3); smoothstep: edge0 < edge1 and x-edge0, edge1-edge0 do not overflow; '
-          'clamp/fclamp range facts: minVal <= maxVal; iround/uround: 0 <= x and x+0.5 below 2^31 / 2^32 (nearest integer representable); wrap functions: finite coordinates; '
+BOUNDS = ('all 2^32 float / 2^64 double patterns per argument (n symbolic arguments for n-ary functions), scalar overloads and vector lengths 1-4 (quick: float all lengths except vec3 only for smoothstep/roundEven/frexp/modf/ldexp; '
+          'double all lengths for the groups decided in milliseconds, scalar only for fract roundEven smoothstep modf frexp ldexp wrap mirrorRepeat; all 31 constants x {float, double} in both tiers); smoothstep: edge0 < edge1 and x-edge0, edge1-edge0 do not overflow; '
+          'clamp/fclamp range facts: minVal <= maxVal; iround/uround: 0 <= x < 2^31 - 0.5 / 2^32 - 0.5 (every x whose nearest integer is representable; x >= 0 is the documented assert); wrap functions: finite coordinates; '
           'frexp/ldexp: all finite x, all 32-bit exponents')
 OUTSIDE = ('accuracy of the composite float formulas mod and mix (only the IEEE evaluation of the documented formula, end values and exact special cases are decided) and the interior of smoothstep '
-           '(range [0,1] attempted as optional obligations); fmod/atan2 values (library functions, uninterpreted: only routing and lifting); NaN payloads; the undefined behaviour of the int casts inside '
+           '(range [0,1]: float proved, double >= 0 proved and <= 1 attempted as an optional obligation in the thorough tier only: the lemma P(t) <= 1 on [0,1] for doubles does not finish); fmod/atan2 values (library functions, uninterpreted: only routing and lifting); NaN payloads; the undefined behaviour of the int casts inside '
            'roundEven for |x| >= 2^31, inf, NaN (that is C20; here only the returned value is checked, side obligations of roundEven are not discharged); the pre-C++11 fallbacks (C15) and SIMD paths (C03)')
-ASSUMPTIONS = ['libm modf/frexp/ldexp are modelled bit-exactly by engine/models.py (modf_model, frexp_model, ldexp_model); floor/ceil/trunc/round/fmin/fmax/fabs by the corresponding SMT-LIB FP operations; '
+ASSUMPTIONS = ['term normalisation canon(): z3 simplifier + sorting of fp.add/fp.mul operands + to_fp(to_ieee_bv(x)) = x + pushing a bit reinterpretation through a selection (the IEEE identities used are re-proved each run in job ieee_lemmas)',
+               'cvc5 1.0.3 (default FP solver, no int-blasting) decides the pure FP lemmas about one division / one subtraction; z3 is the fallback',
+               'libm modf/frexp/ldexp are modelled bit-exactly by engine/models.py (modf_model, frexp_model, ldexp_model); floor/ceil/trunc/round/fmin/fmax/fabs by the corresponding SMT-LIB FP operations; '
                'all validated against native execution on sampled special values each run',
                'fmod and atan2 are uninterpreted functions (only which function is applied to which arguments is decided)',
                'constant enclosures come from mpmath interval arithmetic (mpmath.iv, 80 digits) - trusted arithmetic',
@@ -301,27 +307,30 @@ def cut_fract(S, w, res, cuts, hy, nonneg=True):
 def apply_cuts(t, cuts):
     for old, new in cuts: t = canon(z3.substitute(t, (old, new)), simp=False)[0]       # re-sort: the structural order of operands changes with the replaced sub-term
     return t
+def cut_hermite(S, w, res, cuts, hy, rng=True, upper=True, ends=False):
+    """cut at the Hermite polynomial: the executed P(tmp) (whatever operand order the compiler chose) is replaced by a fresh float p constrained only by facts proved for EVERY float t
+    put in place of tmp:  rng: 0 <= t <= 1 -> 0 <= P(t) (and P(t) <= 1 if upper);  ends: t fp.eq 0 -> P(t) fp.eq 0,  t = 1 -> P(t) = 1"""
+    for r0 in out_fps(res):
+        r0 = apply_cuts(r0, cuts)
+        muls = find_kind(r0, z3.Z3_OP_FPA_MUL)
+        sq = [m for m in muls if m.arg(1).eq(m.arg(2))]
+        if len(sq) != 1 or not muls or not contains(muls[0], sq[0]): continue
+        tmp = sq[0].arg(1); top = muls[0]; t = z3.FP('lem_t', FSORT[w]); P = canon(z3.substitute(top, (tmp, t)), simp=False)[0]     # same polynomial as top up to operand order
+        if [x.get_id() for x in free_consts(P)] != [t.get_id()]: continue
+        dom = [z3.fpGEQ(t, K(0, w)), z3.fpLEQ(t, K(1, w))]; inst = z3.And(z3.fpGEQ(tmp, K(0, w)), z3.fpLEQ(tmp, K(1, w)))
+        pv = fresh_fp(S, w, 'cut_hermite'); cuts.append((top, pv))
+        if rng and _cached(S, ('p0', w, P.sexpr()), lambda: lemma(S, 'hermite-ge-zero', z3.fpGEQ(P, K(0, w)), dom, S.cap(120, 400), w)): hy.append(z3.Implies(inst, z3.fpGEQ(pv, K(0, w))))
+        if rng and upper and _cached(S, ('p1', w, P.sexpr()), lambda: lemma(S, 'hermite-le-one', z3.fpLEQ(P, K(1, w)), dom, S.cap(300, 1500), w, mandatory=(w == 32))): hy.append(z3.Implies(inst, z3.fpLEQ(pv, K(1, w))))
+        if ends and _cached(S, ('e0', w, P.sexpr()), lambda: lemma(S, 'hermite-at-zero', z3.fpEQ(P, K(0, w)), [z3.fpEQ(t, K(0, w))], S.cap(120, 400), w)): hy.append(z3.Implies(z3.fpEQ(tmp, K(0, w)), z3.fpEQ(pv, K(0, w))))
+        if ends and _cached(S, ('e1', w, P.sexpr()), lambda: lemma(S, 'hermite-at-one', P == K(1, w), [t == K(1, w)], S.cap(120, 400), w)): hy.append(z3.Implies(tmp == K(1, w), pv == K(1, w)))
 def eh_smooth_div(S, w):
     def eh(res):
-        cuts = []; hy = []; cut_divisions(S, w, res, cuts, hy, need_nan=False); return hy, cuts      # the end-value obligations only use quotient <= 0 / >= 1 (which already exclude NaN)
+        cuts = []; hy = []; cut_divisions(S, w, res, cuts, hy, need_nan=False)      # the end-value obligations only use quotient <= 0 / >= 1 (which already exclude NaN)
+        cut_hermite(S, w, res, cuts, hy, rng=False, ends=True); return hy, cuts
     return eh
 def eh_smooth_range(S, w, upper=True):
-    """additionally cut at the Hermite polynomial: the executed P(tmp) (whatever operand order the compiler chose) is shown to map [0,1] into [0,1] for every float tmp
-    and is then replaced by a fresh float p with 0 <= p <= 1 whenever 0 <= tmp <= 1"""
     def eh(res):
-        cuts = []; hy = []; cut_divisions(S, w, res, cuts, hy)
-        for r0 in out_fps(res):
-            r0 = apply_cuts(r0, cuts)
-            muls = find_kind(r0, z3.Z3_OP_FPA_MUL)
-            sq = [m for m in muls if m.arg(1).eq(m.arg(2))]
-            if len(sq) != 1 or not muls or not contains(muls[0], sq[0]): continue
-            tmp = sq[0].arg(1); top = muls[0]; t = z3.FP('lem_t', FSORT[w]); P = canon(z3.substitute(top, (tmp, t)), simp=False)[0]     # same polynomial as top up to operand order
-            if [x.get_id() for x in free_consts(P)] != [t.get_id()]: continue
-            dom = [z3.fpGEQ(t, K(0, w)), z3.fpLEQ(t, K(1, w))]; inst = z3.And(z3.fpGEQ(tmp, K(0, w)), z3.fpLEQ(tmp, K(1, w)))
-            pv = fresh_fp(S, w, 'cut_hermite'); cuts.append((top, pv))
-            if _cached(S, ('p0', w, P.sexpr()), lambda: lemma(S, 'hermite-ge-zero', z3.fpGEQ(P, K(0, w)), dom, S.cap(120, 400), w)): hy.append(z3.Implies(inst, z3.fpGEQ(pv, K(0, w))))
-            if upper and _cached(S, ('p1', w, P.sexpr()), lambda: lemma(S, 'hermite-le-one', z3.fpLEQ(P, K(1, w)), dom, S.cap(300, 1500), w, mandatory=(w == 32))): hy.append(z3.Implies(inst, z3.fpLEQ(pv, K(1, w))))
-        return hy, cuts
+        cuts = []; hy = []; cut_divisions(S, w, res, cuts, hy); cut_hermite(S, w, res, cuts, hy, rng=True, upper=upper); return hy, cuts
     return eh
 def eh_mirror(S, w):
     """cut at c = mod(floor(g), 2) with g = |x|: the executed term fl - 2*floor(fl/2) (in whatever form the compiler left it, e.g. fl*0.5) is shown to be 1 for odd
@@ -400,7 +409,7 @@ for n_ in (3, 4):
     add('max%d' % n_, ['T'] * n_, 'T', 'glm::max(%s)' % cs, sp_minmaxN(False), variants=('v' * n_,), bounds='all non-NaN operands', group='minmaxN')
     add('fmin%d' % n_, ['T'] * n_, 'T', 'glm::fmin(%s)' % cs, sp_fminmaxN(True), variants=('v' * n_,), bounds='all operands incl. NaN', group='fmin%d' % n_)
     add('fmax%d' % n_, ['T'] * n_, 'T', 'glm::fmax(%s)' % cs, sp_fminmaxN(False), variants=('v' * n_,), bounds='all operands incl. NaN', group='fmax%d' % n_)
-add('fmin2', ['T', 'T'], 'T', 'glm::fmin({0}, {1})', sp_fminmaxN(True), variants=('vv', 'vs'), bounds='all operands incl. NaN', mut=sp_fminmaxN(False), group='fminmax2')
+add('fmin2', ['T', 'T'], 'T', 'glm::fmin({0}, {1})', sp_fminmaxN(True), variants=('vv', 'vs'), bounds='all operands incl. NaN', mut=lambda w, X, O: sp_fminmaxN(False)(w, X, O)[1:2], group='fminmax2')
 add('fmax2', ['T', 'T'], 'T', 'glm::fmax({0}, {1})', sp_fminmaxN(False), variants=('vv', 'vs'), bounds='all operands incl. NaN', group='fminmax2')
 add('fclamp', ['T', 'T', 'T'], 'T', 'glm::fclamp({0}, {1}, {2})', sp_fclamp, variants=('vvv', 'vss'), bounds='NaN rule: all operands; clamping: minVal <= maxVal')
 add('clamp', ['T', 'T', 'T'], 'T', 'glm::clamp({0}, {1}, {2})', sp_clamp, variants=('vvv', 'vss'), bounds='definition: all operands; range facts: non-NaN, minVal <= maxVal')
